@@ -313,6 +313,7 @@ def c02(ctx):
     RL.rule_bits(ctx)
     RL.rule_hll_ignore_mult(ctx)
     ks = RL.hll_kernels(F)
+    RA.rule_call_width(ctx, [ks["add"], ks["ngram"]])
     RA.rule_cover(ctx, [ks["merge"]])
     RA.rule_other_ro(ctx, [ks["merge"]])
     RT.rule_mergeguard(ctx, hll)
